@@ -298,6 +298,11 @@ def make_sampler(cfg):
             if len(DICTS) > 50:
                 DICTS.pop(next(iter(DICTS)))
         poly = kw.pop('polymer_reactivities')
+        if cfg['seed'] % 3 == 0:
+            # the caller's fragment graphs need not be keyed 0..k-1 (a subgraph copy, atoms numbered as in a file): the same
+            # graphs under increasing keys with gaps
+            import networkx as nx
+            lib = {name: nx.relabel_nodes(t, {k: 2 * k + 3 for k in t.nodes}, copy=True) for name, t in lib.items()}
         return MoleculeSampler(lib, poly, **kw)
     return MoleculeSampler.from_fragment_string(cfg['frag_string'], **kw)
 
